@@ -70,6 +70,11 @@ kstrobe_twin!(k_ciphertext_new, 72, {
   check_ciphertext::<1>();
   check_ciphertext::<70>();
 });
+// payloads longer than one STROBE block (rate 166 bytes), not a multiple of it: a block-wise
+// implementation must still cover the trailing partial block
+kstrobe_twin!(k_ciphertext_long, 172, {
+  check_ciphertext::<170>();
+});
 
 // strobe_digest / derive_ske_key / sample_local_randomness / derive_random_values: labelled key op,
 // one separately framed ad op per element, then one 32-byte RNG draw (concrete lengths, symbolic bytes)
